@@ -69,6 +69,24 @@ func runImport(c ImpCase) (res *h.Result) {
 		if want := m.P[1].Def[c.N].Val; !bound || val != want {
 			return fail(step, fmt.Sprintf("in c13a: %s => %s, expected the imported %s", read, show(bound, val), want))
 		}
+		// c13a never exports the name (no step does): the single colon must not reach it through c13a from elsewhere,
+		// as long as the owner keeps it private
+		qual := strings.Replace(read, c.N, pkgNames[0]+":"+c.N, 1)
+		for _, from := range []int{2, -1} {
+			if m.P[1].Exp[c.N] != refpkg.No {
+				break // the owner exports (or may export) the name: what the colon reaches through c13a then is left open
+			}
+			if from >= 0 {
+				w.inPackage(from)
+			} else {
+				_ = ev.Eval(w.scope, "(in-package :common-lisp-user)")
+			}
+			qb, qv, _ := observe(evalForm(w.scope, qual))
+			w.inPackage(w.cur)
+			if qb {
+				return fail(step, fmt.Sprintf("%s read outside c13a => %s although c13a does not export %s (it only imported it)", qual, show(qb, qv), c.N))
+			}
+		}
 		return nil
 	}
 	if r := check(-1); r != nil {
